@@ -61,7 +61,7 @@ class Ctx:
         self.consulted: set[str] = set()
 
     # -- obligations -------------------------------------------------------------
-    def ob(self, rule, construct, detail, ok, msg="", node=None, file="", path=None, evidence=False):
+    def ob(self, rule, construct, detail, ok, msg="", node=None, file="", path=None, evidence=None):
         """Record an obligation.  `evidence=True`: a failure of this obligation is itself positive evidence of a wrong construct
         (a dataflow fact, a value that was found and differs) -- never demoted to 'unrecognised shape'."""
         line = getattr(node, "lineno", 0) if node is not None else 0
@@ -71,7 +71,12 @@ class Ctx:
         from . import amatch
 
         misses = amatch.take_misses()
-        if evidence:
+        explicit = evidence is True
+        if evidence is None:
+            from .evidence_rules import default_evidence
+
+            evidence = default_evidence(rule)
+        if explicit:
             misses = []
         if not ok and misses:
             o.near = max(sc for sc, _, _ in misses)
@@ -79,10 +84,14 @@ class Ctx:
                 o.unrecognised = True
                 far = max(misses, key=lambda x: x[0])
                 o.msg = (o.msg + f" [no recognised idiom: best match of `{far[1][:70]}` covers {far[0]:.0%} of it]").strip()
-        if not ok and not evidence and not misses and _NOTHING_FOUND.search(msg or ""):
+        if not ok and not explicit and not misses and _NOTHING_FOUND.search(msg or ""):
             # the extractor found nothing to judge (empty list / "not found"): the construct has no recognised shape any more
             o.unrecognised = True
             o.msg = (o.msg + " [nothing extracted: the construct is not in a recognised shape]").strip()
+        if not ok and not evidence and not o.unrecognised:
+            # a shape rule whose reading of the code fails: undecided, never an alarm (sa/evidence_rules.py)
+            o.unrecognised = True
+            o.msg = (o.msg + " [shape rule: the code is not written the way the rule reads it; no positive evidence of a wrong construct]").strip()
         self.obs.append(o)
         return bool(ok)
 
